@@ -1,10 +1,61 @@
 import ShredModel.Model.Pool
-/-! Front end of the pool model: `pool <workers> <groups>` → `completes` | `deadlock`. -/
+/-!
+Front end of the pool model.
+
+* `pool <workers> <groups>` → `completes` | `deadlock`
+* `pool busy <workers> <busy> <groups>` → `completes` | `deadlock`
+* `pool plan <dflt> <top widths> <tok>…` → one word per dispatcher, in build order:
+  `top=<pool size>:<v…>` / `<batch tag>=<pool size>:<v…>` with one `c` (completes) or `d`
+  (deadlock) per stage of that dispatcher.
+  Tokens, in call order: `p<k>` = `add_pool` (pool of `k` threads) on the builder being filled,
+  `[` = a new builder for a batch, `]<tag>:<widths>` = `add_batch` of the innermost open builder
+  (its plan has stages of these widths). Widths are `.`-separated, `-` for none.
+-/
 namespace Shred.Drv.Pool
 open Shred
 
 structure St where
   asked : Nat := 0
+
+def parseWidths (s : String) : Option (List Nat) :=
+  if s == "-" || s.isEmpty then some [] else (s.splitOn ".").mapM String.toNat?
+
+inductive Tok where
+  | pool (p : Nat)
+  | open_
+  | close (tag : Nat) (ws : List Nat)
+
+def parseTok (s : String) : Option Tok :=
+  match s.toList with
+  | ['['] => some .open_
+  | 'p' :: cs => (String.ofList cs).toNat?.map .pool
+  | ']' :: cs =>
+    match (String.ofList cs).splitOn ":" with
+    | [t, ws] => match t.toNat?, parseWidths ws with
+      | some t, some ws => some (.close t ws)
+      | _, _ => none
+    | _ => none
+  | _ => none
+
+/-- the calls are read back to front: `cur` is the part of the innermost open builder that
+follows the position, `stack` the enclosing builders waiting for their batch to be completed -/
+def assemble : List Tok → PB → List (Nat × List Nat × PB) → Option PB
+  | [], cur, [] => some cur
+  | [], _, _ :: _ => none
+  | .pool p :: r, cur, st => assemble r (.pool p cur) st
+  | .close t ws :: r, cur, st => assemble r .nil ((t, ws, cur) :: st)
+  | .open_ :: r, cur, (t, ws, rest) :: st => assemble r (.batch t ws cur rest) st
+  | .open_ :: _, _, [] => none
+
+def parsePB (toks : List String) : Option PB :=
+  match toks.mapM parseTok with
+  | some ts => assemble ts.reverse .nil []
+  | none => none
+
+def showDisp (d : Disp) : String :=
+  let k := match d.tag with | none => "top" | some t => toString t
+  let v := String.ofList (d.widths.map fun n => if poolCompletes d.pool n then 'c' else 'd')
+  s!"{k}={d.pool}:{v}"
 
 def step (st : St) (ws : List String) : St × String :=
   match ws with
@@ -12,6 +63,15 @@ def step (st : St) (ws : List String) : St × String :=
     match w.toNat?, n.toNat? with
     | some w, some n => ({ asked := st.asked + 1 }, if poolCompletes w n then "completes" else "deadlock")
     | _, _ => (st, "bad-op")
+  | ["busy", w, b, n] =>
+    match w.toNat?, b.toNat?, n.toNat? with
+    | some w, some b, some n => ({ asked := st.asked + 1 }, if poolCompletesBusy w b n then "completes" else "deadlock")
+    | _, _, _ => (st, "bad-op")
+  | "plan" :: dflt :: top :: toks =>
+    match dflt.toNat?, parseWidths top, parsePB toks with
+    | some dflt, some top, some b =>
+      ({ asked := st.asked + 1 }, " ".intercalate ((b.build dflt top).map showDisp))
+    | _, _, _ => (st, "bad-op")
   | _ => (st, "bad-op")
 
 end Shred.Drv.Pool
